@@ -17,7 +17,8 @@ PROBES = ["workers>1", "switches>0", "multi_file", "unequal_file_sizes", "parque
           "pred_chunks>=2", "train_chunks>=2", "switch_in_get_rows", "switch_in_predict_fold",
           "scan_only_key", "four_col_key", "multi_psm_spectra", "fallback_best_feature",
           "brew_raised", "fold_without_accept", "dup_scan_other_mass", "pct_schedule", "pred_chunk_lacks_fold",
-          "proba_only_learner", "learner_with_both_methods", "tied_raw_outputs", "same_files_analysed_before_in_process"]
+          "proba_only_learner", "learner_with_both_methods", "tied_raw_outputs", "same_files_analysed_before_in_process",
+          "trained_models_reused_with_other_seed", "output_on_another_scale"]
 
 
 def make_scenario(prop, seed):
@@ -75,7 +76,7 @@ def make_scenario(prop, seed):
     if rng.random() < 0.25:
         # the same files were already analysed earlier in this process, with another fold count / seed
         prior = {"folds": rng.choice([f for f in (2, 3, 4, 5) if f != folds]), "seed": rng.randint(0, 10**6)}
-    return {
+    scn = {
         "prior": prior,
         "property": prop,
         "seed": seed,
@@ -86,6 +87,14 @@ def make_scenario(prop, seed):
         "knobs": kn,
         "sched": world.gen_sched(rng, workers, est_steps=5000),
     }
+    # afterwards the trained fold models are handed back to brew (in fold order) with ANOTHER seed: each must again
+    # score only PSMs it was not trained on (a spectrum's fold must not depend on the seed)
+    scn["reuse_seed"] = rng.randint(0, 10**6) if rng.random() < 0.3 else None
+    if prop == "C11" and "est_kw" not in cfg and rng.random() < 0.3:
+        # the same margins reported on another scale (large offset and small unit, tiny or huge unit): calibration must
+        # not care
+        cfg["est_kw"] = {"affine_out": rng.choice([[1000.0, 1e-3], [-5e4, 2.5e-2], [0.0, 1e-9], [3.0, 1e6]])}
+    return scn
 
 
 def _collect(models, tables):
@@ -147,6 +156,7 @@ def run_scenario(scn, workdir, want):
         "same_files_analysed_before_in_process": int(bool(scn.get("prior"))),
         "learner_with_both_methods": int(cfg["learner"] == "blda"),
         "tied_raw_outputs": int(bool((cfg.get("est_kw") or {}).get("round_out") is not None)),
+        "output_on_another_scale": int(bool((cfg.get("est_kw") or {}).get("affine_out"))),
         "dup_scan_other_mass": int(bool(scn["data"].get("dup_scan_frac")) and "ExpMass" in scn["data"]["spec_extra"]),
         "pred_chunk_lacks_fold": int(kn.get("CHUNK_SIZE_ROWS_PREDICTION", 10**9) < 2 * cfg["folds"]),
     }
@@ -222,9 +232,41 @@ def run_scenario(scn, workdir, want):
         probes["fallback_best_feature"] = 1
 
     if want == "C02":
-        return _oracle_c02(scn, tables, cfg, models, col, all_tags, union_all, tag_to_file_row, ret, fallback,
-                           probes, out, viol, uninf)
+        r = _oracle_c02(scn, tables, cfg, models, col, all_tags, union_all, tag_to_file_row, ret, fallback,
+                        probes, out, viol, uninf)
+        if r.get("status") != "ok" or scn.get("reuse_seed") is None:
+            return r
+        return _reuse_models(scn, tables, cfg, models, col, tag_to_file_row, workdir, probes, out, viol)
     return _oracle_c11(tables, cfg, col, tag_to_file_row, ret, fallback, probes, out, viol, uninf)
+
+
+def _reuse_models(scn, tables, cfg, models, col, t2fr, workdir, probes, out, viol):
+    """Second brew call: the trained fold models of the first call, in fold order, another seed, one worker."""
+    before = [len(getattr(m.estimator, "pred_log_", [])) for m in models]
+    cfg2 = dict(cfg)
+    cfg2.update(seed=scn["reuse_seed"], max_workers=1)
+    res2 = P.run_pipeline(tables, cfg2, workdir, "run", fmt=scn["format"], row_group=scn.get("row_group"),
+                          sched_desc={"mode": "fifo"}, knobs=scn.get("knobs"), models_in=list(models), stop_after="brew")
+    if res2.exc is not None:
+        if isinstance(res2.exc, RuntimeError) and ("No PSMs" in str(res2.exc) or "Failed to calibrate" in str(res2.exc)
+                                                    or "No target PSMs" in str(res2.exc)):
+            return out
+        return viol("run_failed", f"brew with the trained models of the first call failed: {res2.error}", **res2.err_sig())
+    probes["trained_models_reused_with_other_seed"] = 1
+    for i, (m, c) in enumerate(zip(models, col)):
+        new = [e for e in getattr(m.estimator, "pred_log_", [])[before[i]:] if e["phase"] == "predict"]
+        scored = {tg for e in new for tg in e["tags"]}
+        leak = scored & c["fit"]
+        if leak:
+            return viol("train_test_leak", f"re-applied with seed {scn['reuse_seed']}, the model of fold {i + 1} scores "
+                        f"{len(leak)} PSMs it was trained on (e.g. tags {sorted(leak)[:5]})", kind="reused_models")
+        fit_specs = {(t2fr[tg][0], _spec_key(tables[t2fr[tg][0]], t2fr[tg][1])) for tg in c["fit"]}
+        for tg in scored:
+            fi, ri = t2fr[tg]
+            if (fi, _spec_key(tables[fi], ri)) in fit_specs:
+                return viol("train_test_leak", f"re-applied with seed {scn['reuse_seed']}, the model of fold {i + 1} scores tag "
+                            f"{tg} whose spectrum it was trained on", kind="reused_models_spectrum")
+    return out
 
 
 # ------------------------------------------------------------------ C02 oracle
@@ -414,6 +456,8 @@ def shrink_candidates(scn):
     dp = scn["data"]
     if scn.get("prior"):
         c = clone(scn); c["prior"] = None; yield c
+    if scn.get("reuse_seed") is not None:
+        c = clone(scn); c["reuse_seed"] = None; yield c
     if cfg["max_workers"] > 1:
         c = clone(scn); c["cfg"]["max_workers"] = 1; c["sched"] = {"mode": "fifo"}; yield c
         c = clone(scn); c["cfg"]["max_workers"] = 2; yield c
